@@ -51,6 +51,10 @@ type Ctx struct {
 	ModulePath string
 	pkgOfFile map[string]*packages.Package
 	inlineStack []*ssa.Function
+	// FindingResidual: obligation name of a listed known finding -> spec expression
+	// describing exactly the failing cases that are excused
+	FindingResidual map[string]string
+	afterEntry func(run *funcRun, st *State)
 	singleImplAllowed map[string]bool
 }
 
@@ -129,6 +133,7 @@ func Load(dir string, patterns []string) (*Ctx, error) {
 		summaries:  map[*ssa.Function]*writeSummary{},
 		pkgOfFile:  map[string]*packages.Package{},
 		singleImplAllowed: map[string]bool{},
+		FindingResidual: map[string]string{},
 	}
 	if len(pkgs) > 0 {
 		c.Fset = pkgs[0].Fset
